@@ -187,10 +187,38 @@ func (r *rw) run() {
 		}
 	}
 	if r.onlySync {
-		return
-	}
-	for i, d := range r.file.Decls {
-		r.file.Decls[i] = r.rewrite(d, ctx{parent: r.file}).(ast.Decl)
+		// ... and the clock reads: time.Now / Since / Until go through vsched, which answers with the real clock unless the
+		// checker installed a manual one (vsched.ManualNow): elapsed time becomes an environment answer the checker decides
+		if timeName == "" || timeName == "_" || timeName == "." {
+			return
+		}
+		ast.Inspect(r.file, func(n ast.Node) bool {
+			c, ok := n.(*ast.CallExpr)
+			if !ok {
+				return true
+			}
+			sel, ok := c.Fun.(*ast.SelectorExpr)
+			if !ok {
+				return true
+			}
+			id, ok := sel.X.(*ast.Ident)
+			if !ok || id.Name != timeName || (sel.Sel.Name != "Now" && sel.Sel.Name != "Since" && sel.Sel.Name != "Until") {
+				return true
+			}
+			if pn, ok := r.info.Uses[id].(*types.PkgName); !ok || pn.Imported().Path() != "time" {
+				return true
+			}
+			c.Fun = vs(sel.Sel.Name)
+			r.need = true
+			return true
+		})
+		if !r.need {
+			return
+		}
+	} else {
+		for i, d := range r.file.Decls {
+			r.file.Decls[i] = r.rewrite(d, ctx{parent: r.file}).(ast.Decl)
+		}
 	}
 	if timeName != "" && timeName != "_" && timeName != "." {
 		// keep the import used
